@@ -584,3 +584,20 @@ def _hrp_of(tbl, sym):
         if t["sym"] == sym:
             return t["hrp"]
     raise KeyError(sym)
+
+
+def replay(ctx, obj):
+    """./check C08 --replay FILE: re-run the recorded case on the current tree and show what happens"""
+    d = obj.get("detail") or {}
+    print("key :", obj.get("key"))
+    print("what:", obj.get("what"))
+    if d.get("text") is not None:
+        text = d["text"]
+        print("structure of the text:", _structure(text))
+        for sym in sorted({d.get("m"), d.get("n"), (d.get("event") or {}).get("n")} - {None}):
+            tag, res = nets.call(nets.net(sym).parse.address, text)
+            print("%s.parse.address(%r) -> %s" % (sym, text, res if tag != "ok" else _got(res)))
+    if d.get("script"):
+        s = bytes.fromhex(d["script"])
+        N = nets.net(d.get("net", "BTC"))
+        print("info_for_script(%s) -> %s ; address.for_script -> %r" % (d["script"], nets.classify(N, s)[:2], nets.call(N.address.for_script, s)))
